@@ -4,6 +4,7 @@ methods, closures, values of unknown callee (user calls)."""
 from __future__ import annotations
 
 import ast
+import os
 from typing import List
 
 import z3
@@ -603,7 +604,7 @@ class CallMixin:
         """Callee is a symbolic value: enumerate the known callables it may equal (model-guided), the remainder is
         a user call."""
         t = fv.term
-        if self.config.get('user_results_foreign') and getattr(fv, 'origin', None) is not None:
+        if (self.config.get('user_results_foreign') or self.config.get('foreign_shortcut')) and getattr(fv, 'origin', None) is not None:
             rc = fv.origin[0]
             if isinstance(rc, SV) and rc.cls is None and self.entails(
                     st, AND(is_ref(rc.term), z3.Select(st.CL, r_of(rc.term)) >= I(self.index.first_free_id)), 1500):
@@ -626,6 +627,8 @@ class CallMixin:
             self.note('call of a value that may be any of many known callables is treated as a call into unknown code')
             return self.user_call(st, fv, args, node)
         outs = []
+        if os.environ.get('PYVC_DEBUG_CALLVALUE'):
+            print('CALLVALUE line', getattr(node, 'lineno', None), 'found', [repr(pv)[:60] for _, pv in found], 'rest feasible', cur is not None)
         for yes, pv in found:
             outs.extend(self.call(yes, pv, args, node))
         if cur is not None:
@@ -636,8 +639,10 @@ class CallMixin:
         """If under st.pc the callee term can equal a known callable, return (cond, V)."""
         s = z3.Solver()
         s.set('rlimit', 3000000)
+        # candidates are only PROPOSED here (each is then forked with a real feasibility check): quantified facts are
+        # abstracted so that the proposal query is quantifier-free and does not run into the resource limit
         for a in self.global_axioms + st.pc:
-            s.add(a)
+            s.add(smt.abstract_quantifiers(a))
         s.add(is_ref(t))
         # candidates: registry objects + classes + functions
         cands = []
